@@ -1,13 +1,13 @@
 #!/bin/bash
-# Applies each behaviour-preserving refactoring diff to /repo, runs all 20 quick checks in parallel, reverts.
-# Any report is a FALSE ALARM of the reporting check. Usage: tools/run_refactors.sh <dir with C*/R*.diff>
+# Applies each behaviour-preserving refactoring diff to /repo, runs all 20 quick checks (5 at a time), reverts.
+# Any report is a FALSE ALARM of the reporting check. Usage: tools/run_refactors.sh [dir with C*/R*.diff]
 D=${1:-/verif/refactors}
 mkdir -p /tmp/rf_ev/evidence; ln -sfn /verif/checker /tmp/rf_ev/checker; cp /verif/known-findings.txt /tmp/rf_ev/
 for diff in $(ls $D/C*/R*.diff | sort); do
   id=$(basename $(dirname $diff)); r=$(basename $diff .diff)
   if ! git -C /repo apply --check $diff 2>/dev/null; then echo "REFACTOR $id/$r does-not-apply"; continue; fi
   git -C /repo apply $diff
-  out=$(for p in $(seq -w 1 20); do ( /verif/bin/sdnsverif -verif /tmp/rf_ev -property C$p 2>&1 | grep -E "^\s+\[(violation|undecided|unresolved)\]" -A2 | grep "key=" | sed "s/^ */C$p: /" ) & done; wait)
+  out=$(seq -w 1 20 | xargs -P 5 -I{} sh -c '/verif/bin/sdnsverif -verif /tmp/rf_ev -property C{} 2>&1 | grep "key=" | sed "s/^ */C{}: /"')
   git -C /repo checkout -- .
   if [ -z "$out" ]; then echo "REFACTOR $id/$r silent"; else echo "REFACTOR $id/$r ALARM"; echo "$out" | sort | uniq | head -12; fi
 done
